@@ -87,6 +87,7 @@ type Case struct {
 	Screen    bool         `json:"screen"`
 	Wrap      string       `json:"wrap"` // "" = all commands, "none", "probe"
 	Editor    string       `json:"editor"`
+	Local     string       `json:"local"`   // local keymap set by the probe command "probe-setlocal"
 	RawOut    bool         `json:"rawout"`  // log the raw bytes written to the tty at every wait
 	DumpCfg   bool         `json:"dumpcfg"` // log the bind tables and variables after set-up
 	Sessions  [][]Action   `json:"sessions"`
@@ -444,6 +445,11 @@ func runCase(cs *Case, ci int, pty *ptyPair, em *emu, home string) (alive bool) 
 			rl.Keymap.SetLocal("")
 			rl.Keymap.SetMain(su.Mode)
 		}
+	}
+	if cs.Local != "" {
+		local := cs.Local
+		lg := probeLog("probe-setlocal")
+		probes["probe-setlocal"] = func() { rl.Keymap.SetLocal(local); lg() }
 	}
 	// drops a pending numeric argument (so that an experiment's second command starts without one)
 	probes["probe-noarg"] = func() { rl.Iterations.Reset() }
